@@ -1,4 +1,4 @@
-import GrinVerif.Lemmas.DesegApply
+import GrinVerif.Lemmas.DesegWant
 /-! # C16 — the desegmenter as a whole machine (`chain/src/txhashset/desegmenter.rs`)
 
 Property theorems about `Model/Deseg.lean` (bitmap phase → `finalize_bitmap` → the three trees;
@@ -147,6 +147,42 @@ theorem incomplete_has_next (No Nk : Nat) (s : St) (hi : Inv No Nk s) (hr : s.re
       (s.bitmapCache = false ∨ (∃ k, Pos true s.hO No s.out.leaves (some k)) ∨
         (∃ k, Pos true s.hR No s.rp.leaves (some k)) ∨ (∃ k, Pos true s.hK Nk s.ker.leaves (some k)))) :=
   next_exists No Nk s hi hr
+
+/-! ## what `next_desired_segments` asks for -/
+
+/-- **In the bitmap phase the request list starts with the bitmap segment that comes next**, unless
+it is cached, for every `max_elements` — also when that segment adds a single position (a one-chunk
+bitmap): the `>=` of the repair d6b49984d. -/
+theorem bitmap_phase_asks_for_next_first (No Nk : Nat) (s : St) (hi : Inv No Nk s)
+    (hbc : s.bitmapCache = false) (k : Nat)
+    (p : Pos false s.hB (Dsg.expectedChunks No) s.bm.leaves (some k))
+    (hnc : hasId s.bm.cache { height := s.hB, idx := k } = false) (max : Nat) :
+    ∃ t, s.desired max = (Kind.bitmap, ⟨s.hB, k⟩) :: t :=
+  desired_bitmap_next No Nk s hi hbc k p hnc max
+
+/-- the fresh desegmenter of any header asks for bitmap segment 0 first -/
+example : ∃ t, (St.new 9 11 11 11 (mmr 5) (mmr 3) 1 1).desired 15 = (Kind.bitmap, ⟨9, 0⟩) :: t := by
+  have hi := new_inv 9 11 11 11 5 3 1 1 (by omega) (by omega) (by omega) (by omega) (by omega) (by omega)
+    (by omega) (by omega) (by omega) (by omega) (by omega) (by omega) (by omega)
+  refine bitmap_phase_asks_for_next_first 5 3 _ hi rfl 0 ?_ rfl 15
+  have := Pos.boundary (gen := false) (h := 9) (N := Dsg.expectedChunks 5) 0 (by decide)
+  have e : nLeaves 0 = 0 := by
+    have h := nLeaves_mmr 0
+    rw [Co.mmr_zero] at h
+    exact h
+  show Pos false 9 (Dsg.expectedChunks 5) (nLeaves 0) (some 0)
+  rw [e]; exact this
+
+/-- **After the bitmap phase the request list contains the kernel segment that comes next**, unless
+it is cached, for every `max_elements` (its "ensure" step is the last one, nothing can push it out).
+For the output and rangeproof trees the same holds in every state the runs reach with
+`max_elements ≥ 3` (request list compared with the model), but not for `max_elements ≤ 2`: there the
+later "ensure" steps push the earlier ones out of the list (recorded finding, `probe` run). -/
+theorem request_contains_next_kernel_segment (No Nk : Nat) (s : St) (hi : Inv No Nk s)
+    (hbc : s.bitmapCache = true) (k : Nat) (p : Pos true s.hK Nk s.ker.leaves (some k))
+    (hnc : hasId s.ker.cache { height := s.hK, idx := k } = false) (max : Nat) :
+    (Kind.kernel, ({ height := s.hK, idx := k } : Ident)) ∈ s.desired max :=
+  desired_kernel_next No Nk s hi hbc k p hnc max
 
 /-- one round of the sync loop (`state_sync.rs`): deliveries, then `apply_next_segments` -/
 def round (feed : St → List Delivery) (s : St) : St := (s.deliverAll (feed s)).applyNextSegments
